@@ -1,6 +1,10 @@
 package rules
 
-import "osmcheck/core"
+import (
+	"strings"
+
+	"osmcheck/core"
+)
 
 // Round-6 shape class for the XML writers: one wrapper helper that writes start token, body and end token, with the
 // body passed as a CALLBACK, used re-entrantly (the document wrapper's body calls the block wrapper, which calls the
@@ -20,7 +24,14 @@ var c04Benign3 = []core.Mutant{
 	{Name: "wrapper-with-body-callback-reentrant", File: "change.go", Find: c04ChangeTail, Replace: c04ChangeCallback("start.End()", "o == nil")},
 }
 
+// c04ChangeCallbackBodyFirst: the wrapper calls the body before it writes the start token.
+func c04ChangeCallbackBodyFirst() string {
+	good := c04ChangeCallback("start.End()", "o == nil")
+	return strings.Replace(good, "\tif err := e.EncodeToken(start); err != nil {\n\t\treturn err\n\t}\n\n\tif err := body(); err != nil {\n\t\treturn err\n\t}\n", "\tif err := body(); err != nil {\n\t\treturn err\n\t}\n\n\tif err := e.EncodeToken(start); err != nil {\n\t\treturn err\n\t}\n", 1)
+}
+
 var c04Mutants3 = []core.Mutant{
+	{Name: "callback-wrapper-runs-body-before-start-token", File: "change.go", Find: c04ChangeTail, Replace: c04ChangeCallbackBodyFirst(), ExpectRule: "X1", ExpectConstruct: "block Change.Create"},
 	{Name: "callback-wrapper-closes-with-fixed-name", File: "change.go", Find: c04ChangeTail, Replace: c04ChangeCallback("xml.EndElement{Name: xml.Name{Local: \"osmChange\"}}", "o == nil"), ExpectRule: "X1", ExpectConstruct: "root@Change.MarshalXML"},
 	{Name: "callback-wrapper-skips-blocks-without-nodes", File: "change.go", Find: c04ChangeTail, Replace: c04ChangeCallback("start.End()", "o == nil || len(o.Nodes) == 0"), ExpectRule: "X6", ExpectConstruct: "written@Change.Create"},
 }
